@@ -54,7 +54,6 @@ var n2Fields = map[string]string{
 
 // Reasoned exceptions: construct -> reason (one named construct each).
 var e2Exceptions = map[string]string{
-	"netpol/eval.(*evalCache).deleteWorkload: deref of netpol/eval.evalCache.cache [N2]":                                                                                                                                                          "cache is nil only when lru.New fails, which it does only for size <= 0; newEvalCacheWithSize clamps the size to [10,10000]. Not reachable by any input",
 	"netpol/eval.(*PolicyEngine).getPoliciesSelectingPod: assertion peer.(*k8s.PodPeer) [N7]":                                                                                                                                                     "dominated by the PeerType()==IPBlockType early return; the only non-IP implementation of k8s.Peer is *PodPeer",
 	"netpol/eval/internal/k8s.doesNamespacesFieldMatchPeer: deref of ‹k8s.Peer›.GetPeerNamespace() [N3]":                                                                                                                                          "peer is a pod here (IP test above); namespace objects are attached by getPeer/convertPeerToPodPeer for every real pod, and representative peers (nil namespace) never meet admin policies because exposure analysis rejects admin policies at insertion",
 	"netpol/eval/internal/k8s.doesPodsFieldMatchPeer: deref of ‹k8s.Peer›.GetPeerNamespace() [N3]":                                                                                                                                                "same as doesNamespacesFieldMatchPeer",
@@ -85,6 +84,7 @@ var n5KeyedByParam = map[string]string{
 // Field invariants that hold inside one function (N2): "function | owner.Field" -> why the field is set for the values the
 // function handles. Covers a dereference in the function and one in a helper the value is handed to.
 var n2FieldInvariant = map[string]string{
+	"* | netpol/eval.evalCache.cache": "cache is nil only when lru.New fails, which it does only for size <= 0; newEvalCacheWithSize clamps the size to [10,10000]. Not reachable by any input - wherever the field is dereferenced",
 	"netpol/eval.(*PolicyEngine).removeRepresentativePeersMatchingLabels | netpol/eval/internal/k8s.Pod.RepresentativeNsLabelSelector": "entries of representativePeersMap are created only by addRepresentativePod, which stores a non-nil namespace selector (nil with an empty namespace is an error return, nil with a namespace is replaced by the name-label selector)",
 }
 
@@ -857,6 +857,12 @@ func (f *nilFunc) deref(t ast.Expr, at ast.Node, fm facts.Formula) {
 		}
 		return
 	}
+	if why, ok := n2FieldInvariant["* | "+desc]; ok && kind == "N2" {
+		if f.a.report {
+			f.a.r.Add("E2-N2", "* | "+desc, f.a.p.Pos(at.Pos()), core.Excepted, why)
+		}
+		return
+	}
 	if key, why, ok := f.paramKeyedLookup(desc); ok && (kind == "N5" || kind == "N4") {
 		if f.a.report {
 			f.a.r.Add("E2-N5", key, f.a.p.Pos(at.Pos()), core.Excepted, why)
@@ -1033,6 +1039,17 @@ func (f *nilFunc) argObligation(c *ast.CallExpr, callee *types.Func, idx int, su
 		return
 	}
 	path := f.w.Path(arg) + suffix
+	if suffix != "" {
+		// (*p).F and (&v).F are p.F and v.F
+		switch x := ast.Unparen(arg).(type) {
+		case *ast.StarExpr:
+			path = f.w.Path(x.X) + suffix
+		case *ast.UnaryExpr:
+			if x.Op == token.AND {
+				path = f.w.Path(x.X) + suffix
+			}
+		}
+	}
 	if suffix == "" {
 		kind, desc := f.source(arg, fm)
 		if kind == "" {
